@@ -9,3 +9,4 @@ pub mod modres;
 pub mod desc;
 pub mod schema;
 pub mod scoping;
+pub mod luaexec;
